@@ -13,6 +13,10 @@ class Infra(Exception):
     """infrastructure failure: exit 2, claims nothing"""
 
 
+class Crash(Exception):
+    """the harness process was killed by a panic raised inside a goroutine of the library under test"""
+
+
 def log(*a):
     print(*a, flush=True)
 
@@ -123,6 +127,10 @@ def run_harness(ctx, driver, name, timeout=1200, **args):
     except Exception:
         pass
     if r.returncode != 0:
+        m = re.search(r'^panic: .*$', r.stdout, re.M)
+        if m and 'github.com/joeycumines/go-bigbuff.' in r.stdout and 'harness: ' not in r.stdout[:m.start()]:
+            # an unrecovered panic in a goroutine started by the library (the harness recovers panics of its own calls)
+            raise Crash(r.stdout[m.start():m.start() + 6000])
         raise Infra(f'harness {driver} {args} failed rc={r.returncode}: {r.stdout[-2000:]} {stats.get("infra")}')
     if stats.get('infra'):
         raise Infra(f'harness {driver} reported infrastructure problems: {stats["infra"]}')
